@@ -855,6 +855,16 @@ func genSnd(g *hx.Gen) {
 		pol = "eager1"
 		g.Stat("snd.overflow-grant")
 	}
+	if nw > 1 { // several writers: the window at the time of an adjust is not determined by the wire, so no overflow games
+		for i := range grants {
+			if grants[i] > 1<<24 {
+				grants[i] = 1 << 24
+			}
+		}
+		if w0 > 1<<30 {
+			w0 = 1 << 21
+		}
+	}
 	g.Stat(fmt.Sprintf("snd.writers=%d", nw))
 	g.Stat("snd.pol=" + pol[:5])
 	g.Emit("snd dir=%s w0=%d m=%d pol=%s grants=%s writers=%s", r.PickStr("out", "in"), w0, m, pol, hx.JoinInts(grants), strings.Join(ws, ","))
